@@ -275,7 +275,9 @@ HandleOK(k, r, qhost) ==
     [] m.step = "head2" ->
          LET d == Desc(r, TRUE, TRUE, FALSE) IN
          IF ~d.ok THEN Fail0
-         ELSE OpenReader(TRUE, d.alg, d.cont, d.size, m.fblen, m.fbcont, m.fbend, m.facl, m.fframed) /\ UNCHANGED <<w, m>>
+         ELSE \* only the digest is taken from the HEAD response (which must still be a complete descriptor);
+              \* the size is the Content-Length of the GET whose body is read
+              OpenReader(TRUE, d.alg, d.cont, m.facl, m.fblen, m.fbcont, m.fbend, m.facl, m.fframed) /\ UNCHANGED <<w, m>>
     [] m.step = "range" ->
          LET d == Desc(r, TRUE, FALSE, TRUE) IN
          IF ~d.ok THEN Fail0
